@@ -450,6 +450,7 @@ def _contains(ex, container, item, st):
         return z3.Bool(fresh_name("in"))
     if isinstance(container, ModuleRef):
         # a module-level container: whatever earlier calls (of any system, in any order) left in it -- membership is not known
+        ex.module_reads.append((container.path, item))
         return z3.Bool(fresh_name("in_module_state"))
     raise Havoc("contains")
 
